@@ -16,11 +16,20 @@ import (
 // FakeCH implements writer/ch_wrapper.IChClient for the insert side: every Do is decoded (the blocks are pooled
 // and recycled by the service, so they are read inside Do) and answered with the outcome the environment chose.
 type FakeCH struct {
-	mu sync.Mutex
-	// FailNext[table] > 0: the next INSERT into that table fails (and the counter goes down by one).
-	FailNext map[string]int
-	Log      []Insert
+	mu  sync.Mutex
+	Log []Insert
+	// the pending faults may be shared by the clients of several databases ("the next INSERT into time_series,
+	// wherever it goes, fails")
+	f *Faults
 }
+
+// Faults: FailNext[table] > 0 means the next INSERT into that table fails (and the counter goes down by one).
+type Faults struct {
+	mu       sync.Mutex
+	FailNext map[string]int
+}
+
+func NewFaults() *Faults { return &Faults{FailNext: map[string]int{}} }
 
 // Insert is one decoded INSERT block.
 type Insert struct {
@@ -48,7 +57,12 @@ type SampleRow struct {
 	Val  float64
 }
 
-func NewFakeCH() *FakeCH { return &FakeCH{FailNext: map[string]int{}} }
+func NewFakeCH() *FakeCH { return &FakeCH{f: NewFaults()} }
+
+// NewFakeCHSharing returns a client of another database that shares the pending faults f.
+func NewFakeCHSharing(f *Faults) *FakeCH { return &FakeCH{f: f} }
+
+func (f *FakeCH) Faults() *Faults { return f.f }
 
 func (f *FakeCH) Factory() ch_wrapper.IChClientFactory {
 	return func() (ch_wrapper.IChClient, error) { return f, nil }
@@ -58,8 +72,10 @@ func (f *FakeCH) Factory() ch_wrapper.IChClientFactory {
 func (f *FakeCH) Reset() {
 	f.mu.Lock()
 	f.Log = nil
-	f.FailNext = map[string]int{}
 	f.mu.Unlock()
+	f.f.mu.Lock()
+	f.f.FailNext = map[string]int{}
+	f.f.mu.Unlock()
 }
 
 // Take returns the log and clears it.
@@ -72,15 +88,15 @@ func (f *FakeCH) Take() []Insert {
 }
 
 func (f *FakeCH) SetFail(table string, n int) {
-	f.mu.Lock()
-	f.FailNext[table] = n
-	f.mu.Unlock()
+	f.f.mu.Lock()
+	f.f.FailNext[table] = n
+	f.f.mu.Unlock()
 }
 
 func (f *FakeCH) Fail(table string) int {
-	f.mu.Lock()
-	defer f.mu.Unlock()
-	return f.FailNext[table]
+	f.f.mu.Lock()
+	defer f.f.mu.Unlock()
+	return f.f.FailNext[table]
 }
 
 var ErrInjected = errors.New("code: 241, message: injected INSERT failure (verif)")
@@ -145,10 +161,15 @@ func (f *FakeCH) Do(ctx context.Context, q ch.Query) error {
 			ins.Samples = append(ins.Samples, r)
 		}
 	}
+	f.f.mu.Lock()
+	fail := f.f.FailNext[ins.Table] > 0
+	if fail {
+		f.f.FailNext[ins.Table]--
+	}
+	f.f.mu.Unlock()
 	f.mu.Lock()
 	defer f.mu.Unlock()
-	if f.FailNext[ins.Table] > 0 {
-		f.FailNext[ins.Table]--
+	if fail {
 		f.Log = append(f.Log, ins)
 		return ErrInjected
 	}
